@@ -22,7 +22,8 @@ import (
 // Val is a serialisable leaf value.
 //
 // T: str int uint float bool dur time err bytes nil map struct mok mfail mgarbage mempty
-// ansi chan func tmok tmfail stringer
+// ansi chan func tmok tmfail stringer nilerr niltm nilm (typed nil pointers whose value-receiver
+// Error / MarshalText / MarshalJSON method cannot be called)
 type Val struct {
 	T string `json:"t"`
 	B []byte `json:"b,omitempty"` // string payload (arbitrary bytes)
@@ -67,6 +68,10 @@ func (m tmOK) MarshalText() ([]byte, error) { return []byte(m.s), nil }
 type tmFail struct{ msg string }
 
 func (m tmFail) MarshalText() ([]byte, error) { return nil, errors.New(m.msg) }
+
+type valErr struct{ msg string }
+
+func (e valErr) Error() string { return e.msg }
 
 type stringer struct{ s string }
 
@@ -137,6 +142,12 @@ func (v Val) anyOf() any {
 		return tmFail{string(v.B)}
 	case "stringer":
 		return stringer{string(v.B)}
+	case "nilerr":
+		return (*valErr)(nil)
+	case "niltm":
+		return (*tmOK)(nil)
+	case "nilm":
+		return (*mOK)(nil)
 	}
 	panic("attrgen: no any value for kind " + v.T)
 }
@@ -325,7 +336,7 @@ func (v Val) JSONValue() logparse.JV {
 		return logparse.JV{Kind: "null"}
 	case "mfail":
 		return logparse.JV{Kind: "errstr", Contains: FFFD(string(v.B))}
-	case "mgarbage", "mempty", "chan", "func", "tmfail":
+	case "mgarbage", "mempty", "chan", "func", "tmfail", "nilerr":
 		return logparse.JV{Kind: "errstr"}
 	}
 	// everything else: as encoding/json encodes it
@@ -391,7 +402,7 @@ func JSONAttrs(chain []ChainOp, rec []Node) []logparse.JMember {
 // TextExp is the expected (path, value) of one flattened attribute of a text line.
 type TextExp struct {
 	Path string
-	Mode string // exact float dur
+	Mode string // exact float dur any
 	S    string
 	F    float64
 	D    time.Duration
@@ -414,6 +425,8 @@ func (v Val) TextValue() TextExp {
 		return TextExp{Mode: "dur", D: time.Duration(v.I)}
 	case "time":
 		return TextExp{Mode: "exact", S: v.timeOf().Format(time.RFC3339)}
+	case "nilerr", "niltm":
+		return TextExp{Mode: "any"} // no text of its own (the method cannot be called): any one token
 	}
 	return TextExp{Mode: "exact", S: fmt.Sprint(v.anyOf())}
 }
